@@ -23,6 +23,7 @@ type Result struct {
 	Probes     map[string]int `json:"probes,omitempty"`
 	States     []uint64       `json:"-"`
 	Inter      string         `json:"-"` // interleaving fingerprint
+	Reduced    *Program       `json:"-"` // a smaller program the world proposes for the same violation
 	ids        map[string]string
 }
 
